@@ -93,7 +93,7 @@ class Prog:
         return s
 
 
-def enrich(prog, rng, max_in=3, max_inputs=10, max_choices=4, dstcap=3):
+def enrich(prog, rng, max_in=3, max_inputs=10, max_choices=4, dstcap=3, allargs=False):
     """Adds the declaration tables the TLA+ interpreter needs.  Returns None and a
     reason if the program is outside the interpreted fragment at declaration level."""
     d, N = prog.d, prog.N
@@ -175,6 +175,19 @@ def enrich(prog, rng, max_in=3, max_inputs=10, max_choices=4, dstcap=3):
                     if combo not in seen:
                         seen.add(combo)
                         choices.append([{"n": p["n"], "v": x} for p, x in zip(params, combo)])
+            # `// wcore: allargs`: every combination of in-range values of the (small, refined) numeric parameter
+            # ranges - the claimed range of an expression over refined operands is then checked against EVERY operand pair
+            if allargs and nums and all(p["kind"] == "num" for p in params):
+                rngs = [prog.num_range(p["ty"]) for p in params]
+                if all(hi - lo <= 24 for lo, hi in rngs):
+                    n = 1
+                    for lo, hi in rngs:
+                        n *= hi - lo + 1
+                    if n <= 700:
+                        for combo in itertools.product(*[range(lo, hi + 1) for lo, hi in rngs]):
+                            if combo not in seen:
+                                seen.add(combo)
+                                choices.append([{"n": p["n"], "v": v} for p, v in zip(params, combo)])
             while len(choices) < max_choices + 2 + (1 if len(nums) >= 2 else 0) and tries < 50 and params:
                 tries += 1
                 combo = tuple(rng.choice(c) for c in cands)
